@@ -220,6 +220,7 @@ pub(crate) fn stringify_reference(
     reference: &Reference,
     full_row: bool,
     full_column: bool,
+    language: &Language,
 ) -> String {
     let sheet_name = reference.sheet_name;
     let sheet_index = reference.sheet_index;
@@ -245,7 +246,7 @@ pub(crate) fn stringify_reference(
                         if *delta < 0 {
                             if &row >= displace_row {
                                 if row < displace_row - *delta {
-                                    return "#REF!".to_string();
+                                    return language.errors.r#ref.to_string();
                                 }
                                 row += *delta;
                             }
@@ -263,7 +264,7 @@ pub(crate) fn stringify_reference(
                         if *delta < 0 {
                             if &column >= displace_column {
                                 if column < displace_column - *delta {
-                                    return "#REF!".to_string();
+                                    return language.errors.r#ref.to_string();
                                 }
                                 column += *delta;
                             }
@@ -282,7 +283,7 @@ pub(crate) fn stringify_reference(
                         if *delta < 0 {
                             if &column >= displace_column {
                                 if column < displace_column - *delta {
-                                    return "#REF!".to_string();
+                                    return language.errors.r#ref.to_string();
                                 }
                                 column += *delta;
                             }
@@ -301,7 +302,7 @@ pub(crate) fn stringify_reference(
                         if *delta < 0 {
                             if &row >= displace_row {
                                 if row < displace_row - *delta {
-                                    return "#REF!".to_string();
+                                    return language.errors.r#ref.to_string();
                                 }
                                 row += *delta;
                             }
@@ -359,7 +360,7 @@ pub(crate) fn stringify_reference(
                 DisplaceData::None => {}
             }
             if !(1..=LAST_ROW).contains(&row) {
-                return "#REF!".to_string();
+                return language.errors.r#ref.to_string();
             }
             let mut row_abs = if absolute_row {
                 format!("${row}")
@@ -368,7 +369,7 @@ pub(crate) fn stringify_reference(
             };
             let column = match crate::expressions::utils::number_to_column(column) {
                 Some(s) => s,
-                None => return "#REF!".to_string(),
+                None => return language.errors.r#ref.to_string(),
             };
             let mut col_abs = if absolute_column {
                 format!("${column}")
@@ -572,6 +573,7 @@ fn stringify(
             },
             false,
             false,
+            language,
         ),
         ReferenceKind {
             sheet_name,
@@ -593,6 +595,7 @@ fn stringify(
             },
             false,
             false,
+            language,
         ),
         RangeKind {
             sheet_name,
@@ -627,6 +630,7 @@ fn stringify(
                 },
                 full_row,
                 full_column,
+                language,
             );
             let s2 = stringify_reference(
                 context,
@@ -641,6 +645,7 @@ fn stringify(
                 },
                 full_row,
                 full_column,
+                language,
             );
             format!("{s1}:{s2}")
         }
@@ -676,6 +681,7 @@ fn stringify(
                 },
                 full_row,
                 full_column,
+                language,
             );
             let s2 = stringify_reference(
                 context,
@@ -690,6 +696,7 @@ fn stringify(
                 },
                 full_row,
                 full_column,
+                language,
             );
             format!("{s1}:{s2}")
         }
